@@ -22,6 +22,11 @@ def within_i64(v):
     return all(-2**63 <= i <= 2**63 - 1 for i in ints_in(v))
 
 
+def within_u64(v):
+    """i64 range extended upwards to u64: the generator only emits such values where a uint64/uint format admits them."""
+    return all(-2**63 <= i <= 2**64 - 1 for i in ints_in(v))
+
+
 class Run:
     """One generate->compile->execute run for a property."""
 
